@@ -92,6 +92,16 @@ def run(ctx):
         files, base, where = split_program(rng, p)
         if len(files) > 1:
             cases.append((p, files, base, where))
+    # twin files: the same text included under two names (identical diagnostics at identical file-relative positions)
+    for p in progs[:40 * k]:
+        block = rng.choice([["addi zero, a0, 1"], [" li t5, 3", " addi zero, t5, 2"], ["lw t0, 4(sp"], [" frob a0", " addi zero, zero, 0"]])
+        i = rng.randrange(0, len(p) + 1)
+        j = rng.randrange(i, len(p) + 1)
+        full = p[:i] + block + p[i:j] + block + p[j:]
+        a_lines = p[:i] + ['.include "u1.s"'] + p[i:j] + ['.include "lib/u2.s"'] + p[j:]
+        wa = list(range(i)) + [None] + list(range(i + len(block), j + len(block))) + [None] + list(range(j + 2 * len(block), len(full)))
+        where = {"a.s": wa, "u1.s": list(range(i, i + len(block))), "lib/u2.s": list(range(j + len(block), j + 2 * len(block)))}
+        cases.append((full, [("a.s", "\n".join(a_lines) + "\n"), ("u1.s", "\n".join(block) + "\n"), ("lib/u2.s", "\n".join(block) + "\n")], "a.s", where))
     pasted = lib.run_impl(ctx, [lib.store_cmd("repeat 1", pipe.single("\n".join(p) + "\n"), "a.s") for p, _, _, _ in cases], tag="pasted")
     split = lib.run_impl(ctx, [lib.store_cmd("repeat 1", f, b) for _, f, b, _ in cases], tag="split")
     # nodes and parse errors of the tree = those of the pasted file, up to positions (the statement sequence itself)
